@@ -115,6 +115,15 @@ def tight(t, values, where, out):
         return
     if t is Null:
         return
+    if t is str:
+        # documented widenings to str: a literal set overflows (a string of 20+ characters, more than 15 distinct) or
+        # several pseudo-types collapse. Plain short strings, few of them, are neither.
+        obs = [v for v in values if type(v) is str]
+        if obs and all(len(x) < 20 for x in obs) and len(set(obs)) <= 15 and _REGISTRY is not None and \
+                not any(conv.accepts(c, x) for x in set(obs) for c in _REGISTRY.types):
+            out.append(f"{where}: str although only the plain strings {sorted(set(obs))[:4]!r} were observed (each shorter "
+                       f"than 20 characters, {len(set(obs))} distinct): no documented widening applies")
+        return
     if isinstance(t, StringLiteral):
         obs = {v for v in values if type(v) is str}
         extra = set(t.literals) - obs
@@ -164,7 +173,12 @@ def tight(t, values, where, out):
         out.append(f"{where}: {conv.enc_ty(t)!r} inhabited by no observed value {values[:4]!r}"[:300])
 
 
+_REGISTRY = None
+
+
 def check_case(inputs, cmps, registry, dict_fields=(), dict_regex=()):
+    global _REGISTRY
+    _REGISTRY = registry
     reg, g = stages.build_registry(inputs, registry, cmps, dict_fields, dict_regex)
     router = Router()
     roots = {m.name: m for m in reg.models if any(p.parent is None for p in m.pointers)}
